@@ -68,9 +68,11 @@ fn check_arg(arg: &str, expect_bits: u32, symbolic: bool, prefix: usize, case: &
     if !exec {
         return;
     }
+    // '/' with no bit given ('/000', '/u-r'): C08 says "'/' means any given bit set", so with no bit given
+    // the check holds for no file (newer GNU finds match everything; the property's sentence decides, and
+    // C02's reference evaluator has always read it that way)
     if prefix == 2 && bits == 0 {
-        rep.skipped_unspecified += 1; // '/000': find says "matches everything", the property says "any bit set"
-        return;
+        rep.count("any_of_no_bits_executed");
     }
     // behaviour of the executed policy on directed (or all) modes
     let e = t(Test::Perm(match prefix {
